@@ -165,6 +165,14 @@ def build_key(dims, sel, form, X):
 
     if form == "dict-letter":
         return ("key", {l: val(l, s) for l, s in present})
+    if form == "dict-iter":  # item lists handed over as one-shot iterators (accepting them is optional, mis-writing is not)
+        if not any(s[0] == "list" for _, s in present):
+            return None
+        return ("key", {l: (iter(list(s[1])) if s[0] == "list" else val(l, s)) for l, s in present})
+    if form == "dict-letter-rev":  # the entries listed in reverse dimension order
+        if len(present) < 2:
+            return None
+        return ("key", {l: val(l, s) for l, s in reversed(present)})
     if form == "dict-name":
         return ("key", {S.NAMES[l]: val(l, s) for l, s in present})
     if form == "dict-mixed":
@@ -201,7 +209,7 @@ def build_key(dims, sel, form, X):
     raise ValueError(form)
 
 
-FORMS = ("dict-letter", "dict-name", "dict-mixed", "tuple", "tuple-rev", "bare", "ellipsis", "emptydict")
+FORMS = ("dict-letter", "dict-iter", "dict-letter-rev", "dict-name", "dict-mixed", "tuple", "tuple-rev", "bare", "ellipsis", "emptydict")
 
 
 def model_sel(dims, sel):
@@ -318,6 +326,11 @@ def run_case(pattern, dims, sel, form, mode):
         X[key] = rhs
 
     st, got = attempt(do)
+    if st == "raised" and form == "dict-iter":
+        # an implementation may insist on real lists; then the target must be untouched
+        if not np.array_equal(keep, X.values):
+            return fail("changed-on-error", f"the refused write (raised {got}) changed the target")
+        return "iterator-key-refused", None
     if st == "raised":
         return fail("raised", f"write raised {got}")
     st2, obs = attempt(lambda: observe.arr(X))
